@@ -216,6 +216,10 @@ type vfC01Conf struct {
 	SvcPaused   bool
 	Client      *vfC01Client
 	Core        bool
+	// CacheOn enables the DNS response cache of the proxy (the production
+	// default); cacheSeen then remembers what the upstream answered.
+	CacheOn   bool
+	cacheSeen map[string][]string
 }
 
 func vfTexts(rs []vfRule) (ss []string) {
@@ -296,6 +300,10 @@ func (c *vfC01Conf) world() (wc *vfWorldConf) {
 		Mode: c.Mode, BlockingIPv4: c.V4, BlockingIPv6: c.V6, BlockedTTL: c.TTL,
 		FilteringEnabled: c.FilteringOn, ServiceIDs: c.ServiceIDs, ServicesPaused: c.SvcPaused,
 		UserRules: vfTexts(c.Custom)[1:],
+	}
+	if c.CacheOn {
+		wc.CacheSize = 1 << 20
+		c.cacheSeen = map[string][]string{}
 	}
 	for i, l := range c.Block {
 		wc.BlockLists = append(wc.BlockLists, vfListConf{Rules: vfTexts(l), Enabled: c.BlockOn[i]})
@@ -712,6 +720,38 @@ func vfCheckForwarded(q *vfC01Query, o *vfOutcome) (err error) {
 	return nil
 }
 
+// vfCheckForwardedCached is vfCheckForwarded for a server with the DNS cache
+// on: a question the upstream has answered before may be served from the
+// cache, which then must be that answer (TTLs age, SVCB parameters come back
+// in wire order, letter case of owner names is the cached one).
+func vfCheckForwardedCached(c *vfC01Conf, q *vfC01Query, o *vfOutcome) (err error) {
+	key := fmt.Sprintf("%s|%d", strings.ToLower(q.Name), q.Qtype)
+	lower := func(ss []string) (out string) { return strings.ToLower(strings.Join(ss, "\n")) }
+	if len(o.Asked) > 0 {
+		err = vfCheckForwarded(q, o)
+		if err == nil {
+			c.cacheSeen[key] = vfDropTTL(o.Upstream.Answer)
+		}
+
+		return err
+	}
+	if o.Err != nil || o.BeforeErr != nil || o.Res == nil {
+		return fmt.Errorf("request failed: before=%v err=%v", o.BeforeErr, o.Err)
+	}
+	want, ok := c.cacheSeen[key]
+	if !ok {
+		return fmt.Errorf("the upstream was not asked for (%s, %s) and never answered it before", q.Name, dns.Type(q.Qtype))
+	}
+	if len(o.Res.Question) != 1 || o.Res.Question[0] != o.Req.Question[0] || o.Res.Id != o.Req.Id || !o.Res.Response {
+		return fmt.Errorf("bad header/question in a reply from the cache: %v", o.Res)
+	}
+	if got := vfDropTTL(o.Res.Answer); lower(got) != lower(want) {
+		return fmt.Errorf("answer from the cache %q differs from what the upstream answered %q", got, want)
+	}
+
+	return nil
+}
+
 // vfCheckBlocked asserts the "answered locally with the blocking-mode response"
 // half.
 func vfCheckBlocked(c *vfC01Conf, q *vfC01Query, v vfVerdict, o *vfOutcome) (err error) {
@@ -964,6 +1004,10 @@ func vfC01CaseSettle(t *rapid.T, c *vfC01Conf, w *vfWorld, run func(q vfQuery) *
 		check := func(o *vfOutcome) (err error) {
 			if want.Blocked {
 				return vfCheckBlocked(c, q, want, o)
+			}
+
+			if c.cacheSeen != nil {
+				return vfCheckForwardedCached(c, q, o)
 			}
 
 			return vfCheckForwarded(q, o)
